@@ -8,6 +8,8 @@ import (
 	"io"
 	"strings"
 
+	"golang.org/x/net/html"
+
 	"github.com/titpetric/vuego"
 
 	"verif/engine/core"
@@ -16,6 +18,7 @@ import (
 // C12: output is all-or-nothing and writer failures are reported.
 
 type c12Case struct {
+	Part  string `json:"part,omitempty"` // "" = writer and context faults | processor
 	Prog  string `json:"prog"`
 	Entry string `json:"entry"` // render | renderfile | renderstring | renderbyte | renderreader
 	// Stride > 0: for outputs longer than 4096 bytes only the first and last 512 offsets and every
@@ -56,6 +59,129 @@ func (f *failWriter) Write(p []byte) (int, error) {
 	return 0, errInjected
 }
 
+// c12Proc is a node processor that changes nothing and fails at the failAt-th element (or
+// text node) it is shown during one render, counted over all its PostProcess calls (pre=true:
+// over its PreProcess calls). failAt < 0: never.
+type c12Proc struct {
+	failAt int
+	pre    bool
+	n      *int
+	calls  *int
+}
+
+var errProcessor = errors.New("injected processor failure")
+
+func (p *c12Proc) New() vuego.NodeProcessor {
+	n, calls := 0, 0
+	q := *p
+	q.n, q.calls = &n, &calls
+	// the engine may keep using the registered instance instead of New(): count there too
+	if p.n == nil {
+		p.n, p.calls = &n, &calls
+	}
+	return &q
+}
+
+func (p *c12Proc) walk(nodes []*html.Node) error {
+	if p.n == nil {
+		p.n, p.calls = new(int), new(int)
+	}
+	*p.calls++
+	var rec func(n *html.Node) error
+	rec = func(n *html.Node) error {
+		if n.Type == html.ElementNode || n.Type == html.TextNode {
+			if *p.n == p.failAt {
+				*p.n++
+				return errProcessor
+			}
+			*p.n++
+		}
+		for c := n.FirstChild; c != nil; c = c.NextSibling {
+			if err := rec(c); err != nil {
+				return err
+			}
+		}
+		return nil
+	}
+	for _, n := range nodes {
+		if err := rec(n); err != nil {
+			return err
+		}
+	}
+	return nil
+}
+
+func (p *c12Proc) PreProcess(nodes []*html.Node) error {
+	if p.pre {
+		return p.walk(nodes)
+	}
+	return nil
+}
+
+func (p *c12Proc) PostProcess(nodes []*html.Node) error {
+	if !p.pre {
+		return p.walk(nodes)
+	}
+	return nil
+}
+
+// runProc: a registered node processor fails at every position of the evaluated DOM in turn.
+func (c *c12Case) runProc(ctx *core.Ctx) {
+	p := programByName(c.Prog)
+	isString := strings.HasPrefix(c.Entry, "renderstring") || c.Entry == "renderbyte" || c.Entry == "renderreader"
+	if isString && (p.HasFM || p.Layout) {
+		return
+	}
+	if p.Fails {
+		return
+	}
+	ctx.NonTrivial()
+	layoutTag := "no-layout"
+	if p.Layout {
+		layoutTag = "layout"
+	}
+	where := "processor/" + c.Entry + "/" + layoutTag
+	var ref bytes.Buffer
+	ctx.Eval(1)
+	if err := c12Call(bg, p, c.Entry, &ref); err != nil {
+		return
+	}
+	for _, pre := range []bool{false, true} {
+		healthy := &c12Proc{failAt: -1, pre: pre}
+		eng := func(pr *c12Proc) vuego.Template {
+			return vuego.NewFS(CatalogFiles.FS(), vuego.WithComponents(), vuego.WithProcessor(pr))
+		}
+		hw := &failWriter{limit: 1 << 30}
+		ctx.Eval(1)
+		if err := c12CallOn(bg, eng(healthy), p, c.Entry, hw); err != nil || hw.got.String() != ref.String() {
+			ctx.Violation("processor-changes-output", where, c.Prog, fmt.Sprintf("with a processor that changes nothing: err=%v out %q want %q", err, clip(hw.got.String(), 200), clip(ref.String(), 200)))
+			return
+		}
+		total := 0
+		if healthy.n != nil {
+			total = *healthy.n
+		}
+		kind := "post"
+		if pre {
+			kind = "pre"
+		}
+		ctx.Count("processor-"+kind+"-positions", total)
+		for k := 0; k < total; k++ {
+			fw := &failWriter{limit: 1 << 30}
+			ctx.Eval(1)
+			err := c12CallOn(bg, eng(&c12Proc{failAt: k, pre: pre}), p, c.Entry, fw)
+			if err == nil {
+				ctx.Violation("processor-failure-swallowed", where, kind, fmt.Sprintf("program %s: the %s-processor failed at node %d of %d but the render returned nil", c.Prog, kind, k, total))
+				return
+			}
+			if fw.got.Len() != 0 {
+				ctx.Violation("partial-output-on-error", where, kind+"-processor", fmt.Sprintf("program %s: the %s-processor failed at node %d of %d, the render returned %v but wrote %d bytes: %q", c.Prog, kind, k, total, err, fw.got.Len(), clip(fw.got.String(), 200)))
+				return
+			}
+		}
+	}
+}
+
 func stripFM(src string) string {
 	if strings.HasPrefix(src, "---") {
 		if i := strings.Index(src[3:], "\n---"); i >= 0 {
@@ -90,6 +216,10 @@ func c12CallOn(ctx context.Context, t vuego.Template, p *Program, entry string, 
 }
 
 func (c *c12Case) Run(ctx *core.Ctx) {
+	if c.Part == "processor" {
+		c.runProc(ctx)
+		return
+	}
 	p := programByName(c.Prog)
 	isString := strings.HasPrefix(c.Entry, "renderstring") || c.Entry == "renderbyte" || c.Entry == "renderreader"
 	if isString && (p.HasFM || p.Layout) {
@@ -194,7 +324,7 @@ func init() {
 	core.Register(&core.Check{
 		ID:    "C12",
 		Level: "fault_enumeration",
-		Rule: "every catalogue program (25 succeeding, 6 failing early/late/in include/in layout) x entry point {Load+Render, RenderFile, RenderString, RenderByte, RenderReader} x fault {none, cancelled context, writer failing at EVERY byte offset 0..len(output)-1 in three styles: refusing the write and every later one, short write + error, refusing that one write only (a transient fault)}. " +
+		Rule: "every catalogue program (25 succeeding, 6 failing early/late/in include/in layout) x entry point {Load+Render, RenderFile, RenderString, RenderByte, RenderReader} x fault {none, cancelled context, writer failing at EVERY byte offset 0..len(output)-1 in three styles: refusing the write and every later one, short write + error, refusing that one write only (a transient fault)}; plus, for the succeeding programs, a registered node processor that changes nothing and fails at EVERY node position of the DOM it is shown (post-processing and pre-processing), which must give an error and 0 bytes. " +
 			"oracle: healthy writer: error => 0 bytes received, nil => exactly the reference bytes; failing writer: non-nil error, the bytes it accepted are a prefix of the reference, and the next healthy render on the same long-lived engine returns exactly the reference bytes; cancelled context: error and 0 bytes. non-trivial = all; distinct = (program, entry point)",
 		Bounds:      map[string]string{"quick": "all offsets of all programs; for the two programs with more than 4096 bytes of output the first and last 512 offsets and every 97th in between", "thorough": "all offsets of all programs"},
 		Assumptions: []string{"writers that return n < len(p) with a nil error are out of scope"},
@@ -207,6 +337,7 @@ func init() {
 						stride = 97
 					}
 					emit(&c12Case{Prog: p.Name, Entry: e, Stride: stride})
+					emit(&c12Case{Part: "processor", Prog: p.Name, Entry: e})
 				}
 			}
 		},
